@@ -167,6 +167,93 @@ func dbcScanOracle(b []byte, toks []dbc.VerifToken) (sig, detail string) {
 	return "", ""
 }
 
+// ---------------------------------------------------------------------------------------
+// dbc chainok x<hex> [w] — the text cut into tokens and separators by the real scanner; answer
+// "ok <n>" when no two adjacent tokens could merge (the model's chainOK, re-implemented here on
+// the real tokens), "bad <i>" with the index of the first offending pair, "error" when the scan
+// ends with an error token.  With the flag w the text is the real writer's output for a
+// well-formed file: anything but ok is the finding C08/c08-writer-adjacent-tokens (the text-level
+// round trip theorem C08_text_roundtrip_any covers exactly the layouts that satisfy chainOK).
+
+func dbcChainOKLine(b []byte, writer bool) string {
+	l := "dbc chainok x" + hex.EncodeToString(b)
+	if writer {
+		l += " w"
+	}
+	return l
+}
+
+func dbcNoMerge(t1, t2 dbc.VerifToken) bool {
+	if t1.Kind == "string" || (t1.Kind == "punct" && t1.Value != "+" && t1.Value != "-") {
+		return true
+	}
+	c := byte('"')
+	if t2.Kind != "string" {
+		c = t2.Value[0]
+	}
+	if c == '"' || strings.IndexByte(":,()[]|;@+", c) >= 0 {
+		return true
+	}
+	return (t1.Kind == "number" || t1.Kind == "number_range") && t2.Kind == "punct" && t2.Value == "-"
+}
+
+func dbcChainOKDo(e *dbcExec, payload string, writer bool) string {
+	if !strings.HasPrefix(payload, "x") {
+		return "bad-op hex"
+	}
+	b, err := hex.DecodeString(payload[1:])
+	if err != nil {
+		return "bad-op hex"
+	}
+	toks, bad := dbcVerifScanTimed(b)
+	if bad != "" {
+		return bad
+	}
+	res := "error"
+	if toks[len(toks)-1].Kind != "error" {
+		toks = toks[:len(toks)-1] // without the eof
+		// the runes as the scanner shows them
+		var cells []string
+		for i := 0; i < len(b); {
+			r, n := utf8.DecodeRune(b[i:])
+			i += n
+			cells = append(cells, string(r))
+		}
+		at := 0
+		glued := make([]bool, len(toks)) // no blank in front of token k
+		for k, t := range toks {
+			skipped := 0
+			for at < len(cells) && strings.Contains(" \t\n\r", cells[at]) {
+				at++
+				skipped++
+			}
+			glued[k] = skipped == 0
+			want := len(t.Value)
+			if t.Kind == "string" {
+				want += 2
+			}
+			for got := 0; got < want && at < len(cells); at++ {
+				got += len(cells[at])
+			}
+		}
+		res = "ok " + strconv.Itoa(len(toks))
+		for k := 0; k+1 < len(toks); k++ {
+			if glued[k+1] && !dbcNoMerge(toks[k], toks[k+1]) {
+				res = "bad " + strconv.Itoa(k)
+				break
+			}
+		}
+	}
+	if writer && !strings.HasPrefix(res, "ok ") {
+		d := res + " | x" + payload[1:]
+		if len(d) > 400 {
+			d = d[:400]
+		}
+		e.fs = append(e.fs, Finding{Prop: "C08", Sig: "c08-writer-adjacent-tokens", Detail: d})
+	}
+	return res
+}
+
 func dbcScanDo(e *dbcExec, payload string) string {
 	if !strings.HasPrefix(payload, "x") {
 		return "bad-op hex"
@@ -314,12 +401,15 @@ var dbcScanLongShapes = func() []string {
 
 // dbcScanGen: the scan lines of one generated case.  text = the writer's output for the
 // generated AST, mutants = the texts the parse lines of the case use.
-func dbcScanGen(r *rand.Rand, tier string, text string, mutants []string) []string {
+func dbcScanGen(r *rand.Rand, tier string, text string, wellFormed bool, mutants []string) []string {
 	var sc []string
 	sc = append(sc, dbcScanLines([]byte(text))...)
+	if len(text) <= 25000 {
+		sc = append(sc, dbcChainOKLine([]byte(text), wellFormed))
+	}
 	for _, m := range mutants {
 		if len(m) <= dbcScanMaxChunk {
-			sc = append(sc, dbcScanLine([]byte(m)))
+			sc = append(sc, dbcScanLine([]byte(m)), dbcChainOKLine([]byte(m), false))
 		}
 	}
 	n := 6
@@ -385,13 +475,19 @@ func dbcScanExhaustive(tier string) [][]string {
 		}
 	}
 	flush(true)
+	for _, b := range dbcFixtures() {
+		sc = append(sc, dbcChainOKLine(b, false))
+	}
 	for _, s := range dbcSnippets {
-		sc = append(sc, dbcScanLine([]byte(s)))
+		sc = append(sc, dbcScanLine([]byte(s)), dbcChainOKLine([]byte(s), false))
 		flush(false)
 	}
 	flush(true)
 	for _, s := range append(append([]string{}, dbcScanNumberShapes...), dbcScanLongShapes...) {
 		sc = append(sc, dbcScanLine([]byte(s)), dbcScanLine([]byte(" "+s+" ")), dbcScanLine([]byte("a\n\t"+s+";")))
+		if len(s) < 200 {
+			sc = append(sc, dbcChainOKLine([]byte(s), false), dbcChainOKLine([]byte("a\n\t"+s+";"), false))
+		}
 		flush(false)
 	}
 	for _, s := range dbcScanInserts {
@@ -409,6 +505,9 @@ func dbcScanExhaustive(tier string) [][]string {
 	rec = func(prefix string, depth int) {
 		if depth > 0 {
 			sc = append(sc, dbcScanLine([]byte(prefix)))
+			if depth <= 4 {
+				sc = append(sc, dbcChainOKLine([]byte(prefix), false))
+			}
 			flush(false)
 		}
 		if depth == max {
